@@ -247,6 +247,7 @@ def run(prog, chk):
     conversion_ranges(prog, chk, "C18.e")
     formatted_buffers(prog, chk, "C18.f")
     parser_text_complete(prog, chk, "C18.j")
+    hex_digits(prog, chk, "C18.k")
     encoder_bytes_are_utf8(prog, chk, "C18.h")
     decoder_is_utf8(prog, chk, "C18.i")
 
@@ -714,3 +715,109 @@ def parser_text_complete(prog, chk, rid):
             else:
                 chk.ok(rid, f, "%s reads %s" % (f.nodes[c]["callee"], "a local copy of %s bytes" % m.group(1) if m else "the text itself"), f.where(c),
                        "argument followed to its origin", evals=2)
+
+
+def hex_digits(prog, chk, rid):
+    """String::fromHex walked for one input byte: the two characters stored for it are the upper-case hexadecimal digits of its high and
+    low nibble, in that order, at consecutive output positions"""
+    chk.rule(rid, "FIN: String::fromHex(data, size) evaluated for one input byte b in {00, 0F, F0, A5, 5A, 9C, C9, 3E, FF}: the characters stored "
+                  "through the output cursor are, in output order, the upper-case hex digits of b >> 4 and b & 15 (table contents from the literal)", floor=1)
+    fs = [f for f in prog.functions.values() if f.name == "String::fromHex" and f.blocks and len(f.params) == 2 and "*" in f.params[0]["t"]]
+    if not fs:
+        raise AnalysisBroken("String::fromHex(const byte*, usize) not found")
+    f = fs[0]
+    defs = q.local_defs(f)
+    P, L = f.params[0]["n"], f.params[1]["n"]
+    # input reads: derefs / subscripts of the data pointer or of a cursor initialised from it
+    cursors = {P}
+    for n in f.nodes:
+        if n["k"] == "DeclStmt":
+            for d in n["decls"]:
+                if d.get("init") is not None and "*" in (d.get("t") or "") and q.no_casts(f.r(d["init"])) in cursors:
+                    cursors.add(d["n"])
+    outs = set()
+    for n in f.nodes:
+        if n["k"] == "DeclStmt":
+            for d in n["decls"]:
+                if d.get("init") is not None and re.search(r"^(char|unsigned char) \*", d.get("t") or "") and d["n"] not in cursors:
+                    outs.add(d["n"])
+    if not outs:
+        raise AnalysisBroken("String::fromHex: output cursor not found")
+
+    def table_char(x, val, depth=0):
+        x = f.strip(x)
+        n = f.nodes[x]
+        while n["k"] in ("CStyleCastExpr", "CXXStaticCastExpr", "ImplicitCastExpr", "ParenExpr") and n["c"]:
+            x = f.strip(n["c"][0])
+            n = f.nodes[x]
+        if n["k"] == "DeclRefExpr" and n["ref"].get("dk") == "local" and depth < 3:
+            ini = q.single_def(f, n["ref"]["id"], defs)
+            return table_char(ini, val, depth + 1) if ini is not None else None
+        if n["k"] != "ArraySubscriptExpr" or len(n["c"]) != 2:
+            v = fin.eval_expr(f, x, val)
+            return v
+        b = f.strip(n["c"][0])
+        bn = f.nodes[b]
+        if bn["k"] == "DeclRefExpr" and bn["ref"].get("dk") == "local":
+            ini = q.single_def(f, bn["ref"]["id"], defs)
+            bn = f.nodes[f.strip(ini)] if ini is not None else bn
+        if bn["k"] != "StringLiteral" or not bn.get("bytes"):
+            g = prog.globals.get(bn["ref"].get("q")) if bn["k"] == "DeclRefExpr" and bn.get("ref") else None
+            lit = g["strings"][0] if g and g.get("strings") else None
+        else:
+            lit = bn["bytes"]
+        ix = fin.eval_expr(f, n["c"][1], val)
+        if lit is None or ix is None or not 0 <= ix < len(lit):
+            return None
+        return lit[ix]
+    bad = None
+    n_ev = 0
+    for bval in (0x00, 0x0F, 0xF0, 0xA5, 0x5A, 0x9C, 0xC9, 0x3E, 0xFF):
+        val = {L: 1}
+        for i_, n_ in enumerate(f.nodes):      # every read of the input, however it is spelled (`*src`, `data[i]`, `*(data + i)`)
+            if n_["k"] == "ArraySubscriptExpr" and n_["c"] and q.no_casts(f.r(n_["c"][0])) in cursors or \
+               n_["k"] == "UnaryOperator" and n_.get("op") == "*" and n_["c"] and re.match(r"^\(?(%s)\b" % "|".join(re.escape(c_) for c_ in cursors), q.no_casts(f.r(n_["c"][0]))):
+                val[fin.key(f, i_)] = bval
+        for o_ in outs:
+            val[o_] = 0
+        rounds = {"n": 0}
+
+        def assume(k_, _r=rounds):
+            # the loop test over the input cursor: one round, then out
+            _r["n"] += 1
+            return 1 if _r["n"] == 1 else 0
+        out = {}
+
+        def trace(e, v_, _o=out):
+            ne = f.nodes[e]
+            if ne["k"] != "BinaryOperator" or ne.get("op") != "=" or len(ne["c"]) != 2:
+                return
+            l = f.strip(ne["c"][0])
+            ln = f.nodes[l]
+            pos = None
+            if ln["k"] == "ArraySubscriptExpr" and q.no_casts(f.r(ln["c"][0])) in outs:
+                k_ = fin.eval_expr(f, ln["c"][1], v_)
+                base_ = v_.get(q.no_casts(f.r(ln["c"][0])))
+                pos = None if k_ is None or base_ is None else base_ + k_
+            elif ln["k"] == "UnaryOperator" and ln.get("op") == "*" and ln["c"]:
+                t_ = q.no_casts(f.r(ln["c"][0]))
+                m_ = re.fullmatch(r"\(?(\w+)(\+\+)?\)?", t_)
+                if m_ and m_.group(1) in outs and v_.get(m_.group(1)) is not None:
+                    pos = v_[m_.group(1)] - (1 if m_.group(2) else 0)
+            if pos is not None:
+                _o[pos] = table_char(ne["c"][1], v_)
+        seen, end, fv = fin.walk_vals(f, f.entry, val, limit=200, assume=assume, trace=trace)
+        n_ev += 1
+        want = [ord(c) for c in "%02X" % bval]
+        got = [out.get(0), out.get(1)]
+        if got != want or len(out) != 2:
+            bad = (bval, got, sorted(out))
+            break
+    where = "%s:%s" % (f.file, f.line)
+    if bad is None:
+        chk.ok(rid, f, "one input byte gives its two upper-case hex digits, high nibble first", where, "9 byte values walked through one round of the loop", evals=n_ev)
+    else:
+        b_, got, posn = bad
+        chk.bad(rid, f, "hex-digits-wrong", where,
+                "for the input byte %02X fromHex stores %s at output positions %s; the upper-case hexadecimal text is \"%02X\"" % (
+                    b_, "".join(chr(c) if isinstance(c, int) and 32 <= c < 127 else "?" for c in got), posn, b_), evals=n_ev)
